@@ -36,7 +36,11 @@ func cancelCorpus(c *Ctx) []*prog.Program {
 	bs := gen.BoundaryShapes()
 	add(bs[0], "boundary-i")
 	add(bs[1], "boundary-n")
-	add(bs[4], "boundary-sub")
+	for _, p := range bs {
+		if p.Name == "bnd_sub_i" {
+			add(p, "boundary-sub")
+		}
+	}
 	n := 4
 	if !c.Quick() {
 		n = 20
